@@ -292,6 +292,25 @@ def h_retry_receipt(r):
                            ("registration", {}, [], gen.blob(r, 4))], None)
 
 
+def h_receipt_list(r):
+    """An incoming receipt covering several messages (documented shape of IncomingReceiptProtocolEntity with <list><item/>...)."""
+    a = {"id": draw(r, "id"), "from": gen.jid(r), "t": draw(r, "ts")}
+    if r.random() < 0.6:
+        a["type"] = r.choice(["read", "played"])
+    if r.random() < 0.4:
+        a["from"] = gen.jid(r, True)
+        a["participant"] = gen.jid(r)
+    if r.random() < 0.4:
+        a["offline"] = r.choice(["0", "1"])
+    ids, seen = [], set()
+    for _ in range(r.choice([1, 2, 3, 7])):
+        i = draw(r, "id")
+        if i not in seen:
+            seen.add(i)
+            ids.append(i)
+    return ("receipt", a, [("list", {}, [("item", {"id": i}, [], None) for i in ids], None)], None)
+
+
 def h_enc_message(r):
     a = {"id": draw(r, "id"), "from": gen.jid(r), "t": draw(r, "ts"), "type": r.choice(["text", "media"]), "notify": draw(r, "text")}
     if r.random() < 0.4:
@@ -356,6 +375,7 @@ HAND = {
     "stream_features": ("yowsup.layers.auth.protocolentities", "StreamFeaturesProtocolEntity", h_stream_features),
     "stream_error": ("yowsup.layers.auth.protocolentities", "StreamErrorProtocolEntity", h_stream_error),
     "account_ib": ("yowsup.layers.protocol_ib.protocolentities", "AccountIbProtocolEntity", h_account_ib),
+    "receipt_list": ("yowsup.layers.protocol_receipts.protocolentities", "IncomingReceiptProtocolEntity", h_receipt_list),
     "retry_receipt": ("yowsup.layers.axolotl.protocolentities", "RetryIncomingReceiptProtocolEntity", h_retry_receipt),
     "encrypted_message": ("yowsup.layers.axolotl.protocolentities", "EncryptedMessageProtocolEntity", h_enc_message),
     "sticker_message": ("yowsup.layers.protocol_media.protocolentities", "StickerDownloadableMediaMessageProtocolEntity", h_sticker),
